@@ -60,6 +60,18 @@ CONSTANTS Profile,   \* "cmd" | "struct" | "ctl" | "hd" | "lex" | "word" | "word
 
 -----------------------------------------------------------------------------
 (* Strings.  TLC supports Len, \o and SubSeq on strings.                   *)
+(* Characters outside ASCII cross the boundary as `<U+XXXX>` (the harness   *)
+(* decodes them in every string of a line and encodes them in the trees it  *)
+(* records).  XCU 3.216 / 3.235: a name consists of letters, digits and `_` *)
+(* of the PORTABLE character set; an IO_NUMBER and a positional parameter   *)
+(* of the digits 0-9.  Every other character -- non-ASCII letters (é, Ω),   *)
+(* numerics (², ٣, ½) -- is an ordinary word character: the placeholder is  *)
+(* never a name character, a digit or an operator for the operators below.  *)
+(* Non-ASCII white space is specified only where it is quoted (whether it   *)
+(* delimits tokens depends on the locale's class blank).                    *)
+Eacute == "<U+00E9>"   Omega == "<U+03A9>"
+Sup2 == "<U+00B2>"     Arab3 == "<U+0663>"   Half == "<U+00BD>"   Circ1 == "<U+2460>"
+Nbsp == "<U+00A0>"     IdSp == "<U+3000>"    LineSep == "<U+2028>"
 Ch(s, i) == SubSeq(s, i, i)
 Tail1(s) == SubSeq(s, 2, Len(s))
 Digits == {"0","1","2","3","4","5","6","7","8","9"}
@@ -670,6 +682,11 @@ Words(S) == {WL(s) : s \in S}
 (* units from which profile "word" builds words (at most 3 per word) *)
 WordUnits ==
   { Lit("a"), Lit("~"), Lit("~u/b"), Lit("x=~:~u"), Lit("1"), Lit("="), Lit("/"),
+    \* characters outside the portable character set: ordinary word characters everywhere
+    Lit(Eacute), Lit(Sup2), Lit("$" \o Sup2), Lit("$" \o Arab3 \o "x"), Lit("$" \o Half \o Circ1), Lit("$" \o Eacute \o Omega),
+    Bs(Eacute), Bs(Sup2), Bs(Nbsp), Sq(Nbsp \o IdSp \o LineSep \o " " \o Sup2), Dsq(<<ELit(Eacute \o Sup2)>>),
+    Dq(<<Lit("$" \o Sup2 \o Nbsp), Raw("x"), Lit(Eacute), Raw("1"), Lit(Arab3)>>),
+    Braced("x", MSw("-", TRUE, <<Lit("$" \o Sup2 \o Eacute)>>)),
     Bs("a"), Bs("$"), Bs(" "), Bs("\\"), Bs("'"), Bs("\""),
     Sq("a b"), Sq(""), Sq("$x\"\\"), Sq("a\nb"), Sq("if"),
     Dq(<<>>), Dq(<<Lit("a b")>>), Dq(<<Raw("x"), Lit("'"), Bs("\""), Lit("\\a"), Bs("\\")>>),
@@ -718,13 +735,14 @@ UnitBound == IF "MAXUNITS" \in DOMAIN IOEnv THEN NumOf(IOEnv.MAXUNITS) ELSE MaxU
 Lex == Prof = "lex"
 CmdW   == IF Lex THEN Words({"a", "export", "command"}) ELSE Words({"a"})
 KwW    == Words({"if", "{", "!", "done"})     \* reserved words where they are ordinary words
-ArgW   == IF Lex THEN Words({"b", "if", "}", "x=~", "2", "in"}) \cup {W(<<Sq("c d")>>)}
+ArgW   == IF Lex THEN Words({"b", "if", "}", "x=~", "2", "in", Sup2}) \cup {W(<<Sq("c d")>>)}
           ELSE Words({"b"})
 AsgW   == IF Lex THEN Words({"x=1", "x=", "x=~/a:~"}) \cup {W(<<Lit("y="), Raw("x")>>)} ELSE Words({"x=1"})
 HereDocs ==  \* (operator, delimiter, body)
   IF Lex
   THEN { <<"<<", WL("E"), UBody>>, <<"<<-", WL("E"), UBody>>, <<"<<", W(<<Sq("E")>>), QBody>>,
          <<"<<", W(<<Bs("E")>>), QBody>>, <<"<<", WL("-E"), <<>>>>, <<"<<-", WL("-"), <<Lit("b\n")>>>>,
+         <<"<<", WL(Eacute \o Sup2), <<Lit(Omega \o "\n")>>>>,
          <<"<<", W(<<Dq(<<Lit("E F")>>)>>), QBody>> }
   ELSE { <<"<<", WL("E"), <<Lit("b\n")>>>> }
 Redirs ==   \* alternatives of a redirection
@@ -874,9 +892,13 @@ SoupFull ==
     WL("!"), WL("{"), WL("}"), WL("if"), WL("then"), WL("else"), WL("elif"), WL("fi"), WL("for"), WL("in"),
     WL("do"), WL("done"), WL("while"), WL("until"), WL("case"), WL("esac"), WL("function"), WL("[["),
     BadTok("'a"), BadTok("\"a"), BadTok("$(a"), BadTok("${x"), BadTok("`a"), BadTok("$((1"), BadTok("$'a"),
-    BadTok("${"), BadTok("\\") }
+    BadTok("${"), BadTok("\\"),
+    \* outside the portable character set: after `$`, in `${ }`, as IO_NUMBER candidate, as
+    \* assignment / function name (no opinion: XCU says word, not a name), unquoted white space
+    WL(Sup2), Glued(WL(Sup2)), WL("$" \o Sup2), WL("$" \o Arab3), WL(Eacute), WL(Eacute \o "=1"),
+    BadTok("${" \o Eacute \o "}"), BadTok("${" \o Sup2 \o "}"), BadTok("a" \o Nbsp \o "b"), BadTok(IdSp), BadTok(LineSep) }
 SoupSmall ==
-  { Op(";"), Op("&"), Op("|"), Op("("), Op(")"), Op("\n"), Op(";;"), Op(">"), Op(">("), Glued(WL("4294967294")),
+  { Op(";"), Op("&"), Op("|"), Op("("), Op(")"), Op("\n"), Op(";;"), Op(">"), Op(">("), Glued(WL("4294967294")), Glued(WL(Sup2)), WL("$" \o Half),
     WL("a"), Glued(WL("x=")), Glued(WL("2")),
     WL("!"), WL("{"), WL("}"), WL("if"), WL("then"), WL("fi"), WL("for"), WL("in"),
     WL("do"), WL("done"), WL("case"), WL("esac"), BadTok("'a"), BadTok("${") }
